@@ -2,6 +2,7 @@ SPECIFICATION TraceSpec
 CONSTANTS
   MaxI = 2147483647
   TsDivIsFloor = TRUE
+  CmpShiftChecked = TRUE
 INVARIANTS WasmOK TsOK
 POSTCONDITION AllConsumed
 CHECK_DEADLOCK FALSE
